@@ -74,6 +74,10 @@ fn main() {
                         g.scripted_backlog();
                         g.snapshot(&mut wobs);
                     }
+                    if args[1] == "world" && h % 8 == 4 {
+                        g.scripted_rebase_below_pending();
+                        g.snapshot(&mut wobs);
+                    }
                     if args[1] == "world" && h % 8 == 3 {
                         g.scripted_forced_duplicates();
                         g.snapshot(&mut wobs);
